@@ -23,6 +23,7 @@ def run(ctx):
     types = codec.universe(ctx, ctx.pick(40, 400), ctx.pick(1, 2))
     if ctx.quick:
         types = types[::2]
+    codec.mark_services(types)
     camp = codec.Campaign(ctx, types, specs_for(ctx), with_py=False, batch=ctx.pick(30, 40))
     camp.build()
     codec.report_gen_failures(camp, ctx, PROP)
